@@ -168,6 +168,7 @@ func posClass(w []byte, k int) string {
 
 // RunC07 is one simulated run.
 func RunC07(ctx *core.Ctx, r *core.Rng) {
+	Noise(ctx, r)
 	mode := r.Intn(100)
 	switch {
 	case mode < 62:
